@@ -13,5 +13,6 @@ import SarpyModel.Props.C17
 import SarpyModel.Props.C14
 import SarpyModel.Props.C11
 import SarpyModel.Props.C04
+import SarpyModel.Props.C19
 import SarpyModel.Gen.NitfTables
 import SarpyModel.Drivers
